@@ -168,6 +168,15 @@ int cif_loop_get_category(cif_loop_tp *loop, UChar **category) {
     }
 }
 
+/*
+ * Prepares the statement used by cif_loop_set_category().  This is a separate function because PREPARE_STMT() returns
+ * directly from its host function on failure, which must not happen while that function holds resources.
+ */
+static int cif_loop_prepare_set_category(cif_tp *cif) {
+    PREPARE_STMT(cif, set_loop_category, SET_CATEGORY_SQL);
+    return CIF_OK;
+}
+
 int cif_loop_set_category(cif_loop_tp *loop, const UChar *category) {
     cif_container_tp *container = loop->container;
     UChar *category_temp;
@@ -216,7 +225,10 @@ int cif_loop_set_category(cif_loop_tp *loop, const UChar *category) {
              * Create any needed prepared statements, or prepare the existing one(s)
              * for re-use, exiting this function with an error on failure.
              */
-            PREPARE_STMT(cif, set_loop_category, SET_CATEGORY_SQL);
+            if (cif_loop_prepare_set_category(cif) != CIF_OK) {
+                free(category_temp);
+                return CIF_ERROR;
+            }
 
             /* set the category */
             if ((sqlite3_bind_int64(cif->set_loop_category_stmt, 2, container->id) == SQLITE_OK)
